@@ -788,6 +788,7 @@ theorem inv_step {m : Mol} (h : MInv m) (op : Op) : MInv (step m op).1 := by
   | removeSubstituent r1 r2 l => exact inv_removeSubstituent h r1 r2 l
   | addHydrogens hs => exact inv_addHydrogens hs h
   | mkView refs => exact h
+  | viewLocal => exact h
   | viewRead as => exact h
   | viewWrite as ps => exact inv_viewWrite h as ps
   | appendBondObj b x y =>
@@ -925,6 +926,7 @@ theorem keeps_step {m : Mol} (h : MInv m) (op : Op) (a : AtomId) (ha0 : a ∈ m.
     (ha : a ∈ (step m op).1.ids) (hw : ∀ as ps, op = .viewWrite as ps → a ∉ as) : Keeps m (step m op).1 a := by
   cases op with
   | mkView refs => exact Keeps.refl _ _
+  | viewLocal => exact Keeps.refl _ _
   | viewRead as => exact Keeps.refl _ _
   | viewWrite as ps => exact keeps_viewWrite h as ps a ha0 (hw as ps rfl)
   | appendBondObj b x y =>
